@@ -1,2 +1,174 @@
-//! Harnesses for property C11 (see /verif/properties.jsonl).
+//! Harnesses for property C11 (see /verif/properties.jsonl): reachability register, reset /
+//! demobilise decision of the timer, and the effect of a usable answer.
+use crate::common::*;
 use crate::stubs;
+use ntp_proto::*;
+
+/// The real `Reach` register against a reference that keeps the explicit history of the last
+/// eight polls (`hist[i]` = "the poll i steps ago was answered"), from an arbitrary history,
+/// for 10 further events (poll / usable answer).
+#[kani::proof]
+#[kani::unwind(12)]
+fn c11_reach() {
+    let mut hist: [bool; 8] = kani::any();
+    let ev: [bool; 10] = kani::any(); // true = timer poll, false = usable answer arrives
+    let mut raw: u8 = 0;
+    let mut i = 0;
+    while i < 8 {
+        if hist[i] {
+            raw |= 1 << i;
+        }
+        i += 1;
+    }
+    let mut r = sh::reach_from_raw(raw);
+    let mut polls_total: u32 = 0;
+    let mut step = 0;
+    while step <= 10 {
+        // reference: polls since the last answered poll, at most 8
+        let mut since: u32 = 8;
+        let mut k = 8;
+        while k > 0 {
+            k -= 1;
+            if hist[k] {
+                since = k as u32;
+            }
+        }
+        assert!(r.unanswered_polls() == since, "C11: unanswered_polls == min(8, polls since the last usable answer)");
+        assert!(r.is_reachable() == (since < 8), "C11: reachable iff an answer within the last 8 polls");
+        kani::cover!(step == 10 && since == 8 && polls_total == 8, "answer followed by eight missed polls: unreachable");
+        kani::cover!(step == 10 && since == 7, "seven missed polls: still reachable");
+        if step == 10 {
+            break;
+        }
+        if ev[step] {
+            sh::reach_poll(&mut r);
+            let mut j = 7;
+            while j > 0 {
+                hist[j] = hist[j - 1];
+                j -= 1;
+            }
+            hist[0] = false;
+            polls_total += 1;
+        } else {
+            sh::reach_received(&mut r);
+            hist[0] = true;
+            polls_total = 0;
+        }
+        step += 1;
+    }
+}
+
+/// `handle_timer` from an arbitrary (reach, tries, deny flag, version, pending) state.
+sharness! {
+    #[kani::unwind(30)]
+    fn c11_timer() {
+        stubs::symbolic_clock();
+        let (mut src, pre) = any_source(PvClass::Any);
+        let before = sh::state(&src);
+        let acts = collect(src.handle_timer());
+        let post = sh::state(&src);
+        let unreachable = pre.reach == 0;
+        if unreachable && pre.tries >= 3 {
+            assert!(acts.n == 1, "C11: exactly one action for an unreachable source");
+            if pre.have_deny {
+                assert!(acts.kinds[0] == A_DEMOB, "C11: unreachable + deny seen => Demobilize");
+            } else {
+                assert!(acts.kinds[0] == A_RESET, "C11: unreachable => Reset");
+            }
+            assert!(acts.sent.is_none(), "C11: an unreachable source sends nothing further");
+            assert!(post == before, "C11: reset/demobilise decision leaves the state alone");
+            assert!(pending_unchanged(&src, &pre), "C11: no new request");
+            assert!(unsafe { stubs::HASHMAP_INSERTS } == 0, "C11: nothing published");
+        } else {
+            assert!(acts.n == 2 && acts.kinds[0] == A_SEND && acts.kinds[1] == A_TIMER, "C11: a live source polls: [Send, SetTimer]");
+            assert!(post.tries == pre.tries.saturating_add(1), "C11: tries counts polls");
+            assert!(post.reach == pre.reach << 1, "C11: a poll shifts the reach register");
+            assert!(post.have_deny_rstr_response == pre.have_deny, "C11: deny memory only cleared by a usable answer");
+            assert!(post.pending, "C11: a request is pending after a poll");
+        }
+        kani::cover!(acts.n == 1 && acts.kinds[0] == A_RESET, "reset");
+        kani::cover!(acts.n == 1 && acts.kinds[0] == A_DEMOB, "demobilise");
+        kani::cover!(acts.n == 2 && pre.reach == 0 && pre.tries == 2, "third start-up poll still sent");
+        kani::cover!(acts.n == 2 && pre.reach == 0x80 && post.reach == 0, "eighth missed poll sent, source becomes unreachable");
+        kani::cover!(acts.n == 2 && pre.tries == usize::MAX, "tries saturates");
+    }
+}
+
+/// A usable answer (C08 criteria, raw bytes) marks the source reachable and clears the deny memory;
+/// the reported missed polls are the trailing zeros of the register.
+#[cfg(kani)]
+fn answer_body(src: &mut Src, pre: &Pre, pkt: &[u8]) {
+    let acts = collect(src.handle_incoming(pkt, th::ts_from_raw(1), th::ts_from_raw(2)));
+    let after_t = tokio::time::Instant::now();
+    let post = sh::state(src);
+    let n = sh::controller(src).n_meas;
+    let usable = must_match(pre, pkt, after_t) && mode_bits(pkt) == 4 && stratum_byte(pkt) >= 1 && stratum_byte(pkt) <= 16;
+    if usable {
+        assert!(n == 2, "C11: a usable answer is measured");
+        assert!(post.reach == pre.reach | 1, "C11: a usable answer sets the lowest reach bit");
+        assert!(!post.have_deny_rstr_response, "C11: a usable answer clears the deny memory");
+        assert!(sh::reach_from_raw(post.reach).unanswered_polls() == 0, "C11: no missed polls after an answer");
+    }
+    if n == 2 {
+        assert!(post.reach & 1 == 1 && !post.have_deny_rstr_response, "C11: measured => reachable, deny cleared");
+    } else {
+        assert!(post.reach == pre.reach, "C11: reach only changes through usable answers");
+    }
+    assert!(post.tries == pre.tries, "C11: incoming packets do not count as polls");
+    assert!(acts.n == 0, "C11: no actions");
+    kani::cover!(usable && pre.have_deny && pre.reach == 0, "usable answer revives an unreachable, denied source");
+    kani::cover!(n == 0 && pre.have_deny && post.have_deny_rstr_response, "unusable packet keeps the deny memory");
+}
+
+sharness! {
+    #[kani::unwind(12)]
+    fn c11_answer() {
+        stubs::symbolic_clock();
+        let (mut src, pre) = any_source(PvClass::V4Family);
+        let mut p = any_pkt4();
+        let b0: u8 = kani::any();
+        let mut run = |v: u8| {
+            p.set_b0(v);
+            answer_body(&mut src, &pre, p.bytes());
+        };
+        for_b0!(quick, b0, run);
+    }
+}
+
+sharness! {
+    #[kani::unwind(30)]
+    fn c11_answer_v5() {
+        stubs::symbolic_clock();
+        let (mut src, pre) = any_source(PvClass::V5Family);
+        let mut p = any_pkt5();
+        let sel: u8 = kani::any();
+        let mut run = |b0: u8, b12: u8, b14: u8, b15: u8| {
+            p.set_hdr(b0, b12, b14, b15);
+            answer_body(&mut src, &pre, p.bytes());
+        };
+        for_v5hdr!(all, sel, run);
+    }
+}
+
+/// `observe()` reports the missed polls of the register (all 256 register values).
+harness! {
+    #[kani::unwind(30)]
+    #[kani::stub(alloc::fmt::format, crate::stubs::fmt_format_stub)]
+    fn c11_observe() {
+        let reach: u8 = kani::any();
+        let mut src = mk_source(ProtocolVersion::V4, th::poll_from_raw(4));
+        sh::set_reach(&mut src, reach);
+        let o = src.observe(String::new(), sh::clock_id(SRC_ID));
+        let mut expect: u32 = 8;
+        let mut k = 8;
+        while k > 0 {
+            k -= 1;
+            if reach & (1 << k) != 0 {
+                expect = k as u32;
+            }
+        }
+        assert!(o.unanswered_polls == expect, "C11: observed missed polls = polls since the last usable answer, at most 8");
+        kani::cover!(o.unanswered_polls == 8, "never answered / eight missed");
+        kani::cover!(o.unanswered_polls == 3, "three missed");
+    }
+}
